@@ -84,19 +84,42 @@ def _sequential_reference(run):
     def beg():
         return ref.head if ref.head is not None else "end"
 
-    has = False
+    has = False        # a handle is held
+    writer = False     # ... a write handle
+    reg = False        # ... and it has been used (registered) already
     for op in [o for o in parts[1].split(",") if o] + ["rel"]:
+        # fault suffix: `!` element constructor throws, `!n` node allocation fails, `!z` record allocation fails
+        op, bang, fault = op.partition("!")
         name, _, arg = op.partition("=")
-        thr = arg.endswith("!")
-        arg = arg.rstrip("!")
+        thr = bool(bang) and fault == ""
+
+        def first_use():
+            """the first use of a handle registers it; False if that allocation is the one that fails"""
+            nonlocal reg, fault
+            if not reg:
+                if fault == "z":
+                    fault = None
+                    return False
+                reg = True
+            return True
+
+        def erase_at(it):
+            """erase through the iterator: (new iterator for `erc`, changed?)"""
+            nonlocal fault
+            if fault == "z" and not it["deleted"]:
+                fault = None
+                return None          # the zombie record cannot be allocated: nothing changes, the exception propagates
+            return ref.erase(it) or "end"
+
         if name in ("lr", "lw"):
-            has = True
+            has, writer, reg = True, name == "lw", False
         elif name == "rel":
             has, it = False, None
         elif not has:
             continue
         elif name == "beg":
-            it = beg()
+            if first_use():
+                it = beg()
         elif name == "nxt":
             if it not in (None, "end"):
                 it = it["next"] if it["next"] is not None else "end"
@@ -104,36 +127,42 @@ def _sequential_reference(run):
             if it not in (None, "end"):
                 exp_got.append(it["val"])
         elif name in ("pf", "pb", "ef", "eb"):
-            if not thr:
+            if first_use() and not thr and fault != "n":
                 ref.push(name in ("pf", "ef"), int(arg))
         elif name in ("erc", "ers"):
-            if it not in (None, "end"):
-                nx = ref.erase(it)
-                if name == "erc":
-                    it = nx if nx is not None else "end"
+            if it not in (None, "end") and writer:
+                nx = erase_at(it)
+                if nx is not None and name == "erc":
+                    it = nx
         elif name == "all":
-            it = beg()
+            if first_use():
+                it = beg()
             seen = []
-            while it != "end":
+            while it not in (None, "end"):
                 seen.append(it["val"])
                 exp_got.append(it["val"])
                 it = it["next"] if it["next"] is not None else "end"
             exp_macs.append(seen)
         elif name == "eri":
+            reg = True                 # the macro's `beg` carries no fault: it registers the handle
             it = beg()
             for _ in range(int(arg)):
-                if it != "end":
+                if it not in (None, "end"):
                     it = it["next"] if it["next"] is not None else "end"
-            if it != "end":
-                nx = ref.erase(it)
-                it = nx if nx is not None else "end"
+            if it not in (None, "end") and writer:
+                nx = erase_at(it)
+                if nx is not None:
+                    it = nx
         elif name == "erv":
+            reg = True                 # the macro's `beg` carries no fault: it registers the handle
             it = beg()
-            while it != "end":
+            while it not in (None, "end"):
                 exp_got.append(it["val"])
                 if it["val"] == int(arg):
-                    nx = ref.erase(it)
-                    it = nx if nx is not None else "end"
+                    if writer:
+                        nx = erase_at(it)
+                        if nx is not None:
+                            it = nx
                     break
                 it = it["next"] if it["next"] is not None else "end"
     if got != exp_got:
@@ -152,7 +181,8 @@ def oracle_rcu(run):
     C12: every traversal returns values in list order (positions in the ghost insertion order strictly increase), hence
          without duplicates, and only inserted values; a complete traversal returns every value that was linked before it
          started and not erased before it ended; stores to the list structure happen only under the write mutex, whose
-         critical sections do not overlap; single-thread scripts agree with a sequential reference list."""
+         critical sections do not overlap; single-thread scripts agree with a sequential reference list.
+    C14: no mutex / condition-variable event inside a read-side operation (lock_read, begin, ++, *, release of a read handle)."""
     led = {}            # block -> 'alo' | 'con' | 'des' | 'fre'
     thrown = set()      # blocks whose element constructor threw
     val_of = {}         # node block -> value
@@ -167,8 +197,27 @@ def oracle_rcu(run):
     trav = {}           # tid -> dict(vals, advanced, t0, complete)
     done_travs = []     # (vals, t0, t1, complete)
     idx = 0
+    hkind = {}          # tid -> "lr" | "lw": kind of the handle the thread holds
+    in_op = {}          # tid -> primitive op the thread is inside (between `call` and `ret` / `exc`)
     for idx, (tid, t) in enumerate(events(run)):
         k = t[0]
+        if k in ("call", "ret", "exc") and len(t) > 1:
+            t = [k, t[1].split("!")[0]] + t[2:]      # the fault suffix of a script op is not part of the operation's name
+        # C14 (rcu part) on the raw trace: a read-side operation - lock_read, begin, ++, *, and the release of a READ
+        # handle - never takes (or waits for) a mutex / condition variable: it would wait for a writer that may be suspended
+        if k in ("mlk", "mtl", "mtf", "slk", "stl", "stf", "cwt", "yld") and tid in in_op:
+            o = in_op[tid].split("=")[0]
+            if o in ("lr", "beg", "nxt", "der") or (o == "rel" and hkind.get(tid) == "lr"):
+                what = {"lr": "lock_read", "beg": "begin", "nxt": "iterator advance", "der": "iterator dereference",
+                        "rel": "release of a read handle"}[o]
+                return ("read-side operation (%s, thread %d) took the write mutex (`%s`): it waits for a writer that may "
+                        "be suspended" % (what, tid, " ".join(t)))
+        if k == "call":
+            in_op[tid] = t[1]
+            if t[1] in ("lr", "lw"):
+                hkind[tid] = t[1]
+        elif k in ("ret", "exc"):
+            in_op.pop(tid, None)
         if k == "call":
             cur_op[tid] = t[1]
             if t[1] == "dtor":
@@ -365,7 +414,13 @@ def register(PROPS, COMPONENTS):
                    "one, every destroy a constructed one (never a null / phantom / already destroyed one), every deallocate a "
                    "destroyed one (or a never-constructed one when the element constructor threw), each at most once and in this "
                    "order; after the list destructor every node and record ever allocated is freed; a handle release destroys a "
-                   "node only if it was erased. The model is tied to the source on every run: the unmodified headers run with a "
+                   "node only if it was erased. Allocation failures are part of the model (the allocator may throw at the "
+                   "registration of a handle, in push_* / emplace_*, and in erase, which allocates its zombie record BEFORE "
+                   "it touches the list): every step on such an exception path changes only the thread's pc and the mutex "
+                   "holder, and when the exception reaches the client the whole state - list, log, both ledgers, handles, "
+                   "iterators - is exactly the state before the call (C13_erase_alloc_failure, C13_push_alloc_failure, "
+                   "C13_register_alloc_failure), so nothing leaks; the client's tracing allocator injects these failures "
+                   "(`!n` / `!z` script suffixes) and the ledger oracle requires every block to be freed at the end. The model is tied to the source on every run: the unmodified headers run with a "
                    "tracing, quarantining allocator (rcu_list's Alloc parameter), a traced non-trivially-destructible element type "
                    "and int, the plain-access tap over the whole allocation arena, under a deterministic scheduler; every "
                    "primitive-level trace must be accepted by the model's step function with all model edges covered, and an "
